@@ -194,6 +194,7 @@ def run_job(lines, cfg, limit=25.0):
     if not finished and not stalled:
         finished = None           # still progressing at the time limit: inconclusive
     drained = wait_idle(fw, quiet=0.25, limit=90.0)
+    resendfrom = p.resendfrom
     with fw.lock:
         fw.logging = False
         events = list(fw.events)
@@ -203,7 +204,7 @@ def run_job(lines, cfg, limit=25.0):
     except Exception:
         pass
     fw.alive = False
-    return dict(events=events, accepted=accepted, finished=finished, drained=drained)
+    return dict(events=events, accepted=accepted, finished=finished, drained=drained, resendfrom=resendfrom)
 
 
 # ---------------------------------------------------------------------------------------
@@ -378,6 +379,14 @@ def main():
             run.violation("wire format: %s" % wf, rep)
             continue
         cl = classify(cmds, res["accepted"], cfg, evs)
+        reset_ok = 0 not in cfg["corrupt"]          # the hypothesis of the theorem: the reset transmission got through
+        if cl and reset_ok and res.get("resendfrom", 0) == -1:
+            # C15_complete_unless_late_resend: with the reset through, an incomplete job at quiescence leaves resendfrom set
+            found = True
+            run.violation("job of %d commands, corrupted transmissions %r: the firmware accepted %d commands although no Resend request is "
+                          "left unserved (printcore.resendfrom == -1): the model's completeness theorem says this cannot happen -- %s" % (
+                              len(cmds), sorted(cfg["corrupt"]), len(res["accepted"]), cl[0]), rep)
+            continue
         if cl:
             text, sig = cl
             text = "job of %d commands, corrupted transmissions %r, firmware boots expecting N%d: %s" % (
